@@ -19,7 +19,6 @@ GRAN = (0x01, 0x05, 0x02, 0x03, 0x04, 0x06, 0x07, 0x10, 0x11)
 BYTEWIDTH = {0x01: 1, 0x05: 1, 0x10: 1, 0x11: 1, 0x02: 2, 0x03: 3, 0x04: 4, 0x06: 4, 0x07: 8}
 RATES = [1, 2, 3, 8000, 11025, 44100, 65535, 65536, 2 ** 30 - 1, 2 ** 30, 2 ** 31 - 1]
 CHANNELS = [1, 2, 3, 6]
-KF_RATE = "KF-AIFF-RATE-2P30"
 TINY = 0x0DA24260          # binary32 pattern of the smallest float >= 1e-30
 
 
@@ -178,24 +177,19 @@ def chunk_walk(b):
 
 
 def c04_predicate(job, final, reopen_line):
-    """problems of the library's own result against the C04 statement (empty list = holds); second value: the failure
-    is exactly the known 2^30 sample-rate class"""
-    probs, known = [], False
+    """problems of the library's own result against the C04 statement (empty list = holds)"""
+    probs = []
     if not reopen_line.startswith("open=ok"):
-        return ["re-open of the closed file fails: " + reopen_line], False
+        return ["re-open of the closed file fails: " + reopen_line]
     d = kv(reopen_line)
     if int(d["ch"]) != job.ch:
         probs.append("channels %s, written with %d" % (d["ch"], job.ch))
     if int(d["fmt"], 16) != expected_word(job.f):
         probs.append("format word %s, expected %08x" % (d["fmt"], expected_word(job.f)))
     if int(d["sr"]) != job.sr:
-        if job.sr >= 2 ** 30 and int(d["sr"]) == 800000000:
-            known = True
-        else:
-            probs.append("sample rate %s, requested %d" % (d["sr"], job.sr))
+        probs.append("sample rate %s, requested %d" % (d["sr"], job.sr))
     fr = int(d["frames"])
-    pad_ok = job.bw == 1 and job.n % 2 == 1          # one pad frame where the container pads an odd byte count
-    if not (fr == job.n or (pad_ok and fr == job.n + 1)):
+    if fr != job.n:                                   # the pad byte after an odd byte count is not a frame
         probs.append("frames %d, %d written" % (fr, job.n))
     form, chunks = chunk_walk(final)
     if form is None or form != (len(final) - 8) % 2 ** 32:
@@ -212,11 +206,11 @@ def c04_predicate(job, final, reopen_line):
         probs.append("no single SSND chunk")
     else:
         _, off, size = ss[0]
-        if off + 4 + size != len(final) or len(final) % 2:
-            probs.append("SSND size field %d does not reach the (even) end of file: chunk ends at %d, file has %d bytes" % (size, off + 4 + size, len(final)))
-        if size - 8 - job.n * job.bw not in (0, 1):
+        if off + 4 + size + (size & 1) != len(final) or len(final) % 2:
+            probs.append("SSND chunk (size field %d) plus its pad byte does not reach the (even) end of file: ends at %d, file has %d bytes" % (size, off + 4 + size + (size & 1), len(final)))
+        if size - 8 != job.n * job.bw:
             probs.append("SSND size field %d for %d audio bytes" % (size, job.n * job.bw))
-    return probs, known
+    return probs
 
 
 def parse_dump(line):
@@ -230,7 +224,7 @@ def writer_campaign(ctx, fmts, quick):
     impl = ctx.batch(scripts, workers=4)
     model = ctx.run_model(["aiff"], "".join(j.model_line() + "\n" for j in jobs)).split("\n")
     stats = collections.Counter()
-    corr, pred, known, files = [], [], [], []
+    corr, pred, files = [], [], []
     for i, j in enumerate(jobs):
         name, script = scripts[i]
         lines = impl.get(name, [])
@@ -258,16 +252,14 @@ def writer_campaign(ctx, fmts, quick):
                     diffs.append("%s: header byte %d is %02x, model %02x (impl %s model %s)" % (where, x, b[x], h[x], b[:len(h)].hex(), h.hex()))
                 elif t and b[len(b) - len(t):] != t:
                     diffs.append("%s: tail %s, model %s" % (where, b[len(b) - len(t):].hex(), t.hex()))
-        probs, kn = c04_predicate(j, dumps[2], reopen)
-        if kn:
-            known.append((j, name))
+        probs = c04_predicate(j, dumps[2], reopen)
         if probs:
             pred.append((j, name, script, probs, reopen))
         elif diffs:
             corr.append((j, name, script, diffs, reopen))
         files.append((j, dumps[1], dumps[2], reopen))
         stats["images"] += 3
-    return jobs, files, corr, pred, known, stats
+    return jobs, files, corr, pred, stats
 
 
 # ---------------------------------------------------------------- reader
@@ -398,7 +390,7 @@ def run(ctx, found=False):
     """called from vlib/props/c04.py after the common C04 machinery; returns True when it reported a violation"""
     quick = ctx.tier == "quick"
     fmts = aiff_formats(ctx)
-    jobs, files, corr, pred, known, wstats = writer_campaign(ctx, fmts, quick)
+    jobs, files, corr, pred, wstats = writer_campaign(ctx, fmts, quick)
     bad, rstats = reader_campaign(ctx, files, quick)
     # the 80-bit rate on its own: boundaries and seeded values, model against the library's COMM bytes is covered above;
     # here the model's round trip is tabulated for the evidence
@@ -409,14 +401,11 @@ def run(ctx, found=False):
     ctx.coverage["traces_validated_against_impl"] += wstats["sessions"] + rstats["parse_cases"]
     ctx.notes["aiff"] = {"formats": [f.name for f in fmts], "writer": dict(wstats), "reader": dict(rstats),
                          "writer_disagreements": len(corr), "predicate_failures": len(pred), "reader_disagreements": len(bad),
-                         "known_rate_class_sessions": len(known), "rates_tabulated": len(rates), "rates_exact_in_model": exact,
+                         "rates_tabulated": len(rates), "rates_exact_in_model": exact,
                          "rule": "every accepted sample-granular AIFF (major, subtype, endian) x channels {1,2,3,6} x rates {1, 2, 3, 8000, 11025, 44100, 65535, 65536, "
                                  "2^30-1, 2^30, 2^31-1, seeded} x N {0,1,2,3,5,8,4097} (quick: rotating rates per (format, channels, N) plus every rate once per format; "
                                  "thorough: the full product); three store images per session compared byte for byte outside the audio region; "
                                  "library files and their mutants parsed by both sides"}
-    kf = next((k for k in ctx.known if k["id"] == KF_RATE and k.get("status") == "known"), None)
-    if known and kf:
-        ctx.known_finding(kf)
     reported = False
     for (j, name, script, probs, reopen) in pred[:3]:
         reported = True
@@ -431,10 +420,6 @@ def run(ctx, found=False):
             if lines:
                 text += "observed-last %s\n" % lines[-1].strip()
         ctx.violation("c04-aiff-%s" % name, text + "--- script\n" + sc)
-    if known and not kf and not reported:
-        j, name = known[0]
-        reported = True
-        ctx.violation("c04-aiff-rate-%s" % name, "# AIFF: sample rate %d re-opens as 800000000 and no known-finding entry %s covers it\n--- script\n%s" % (j.sr, KF_RATE, j.script()))
     if not reported and not found:
         if corr:
             j, name, script, diffs, reopen = corr[0]
